@@ -113,6 +113,17 @@ class SMap:
         return None
 
 
+class PList:
+    """Append-only list of heap objects with an unknown (symbolic) prefix: prefix ++ tail."""
+
+    def __init__(self, base, tail=None):
+        self.base = base  # z3 constant of sort ObjList naming the unknown prefix (None = empty prefix)
+        self.tail = list(tail or [])
+
+    def copy(self):
+        return PList(self.base, self.tail)
+
+
 class Rec:
     """Heap object (dataclass instance, self, stub ctx...)."""
 
@@ -302,7 +313,7 @@ class TList(Ty):
         ln = ctx.fresh(name + ".len", z3.IntSort())
         ctx.assume(ln >= 0)
         arr = ctx.fresh(name + ".arr", z3.ArraySort(z3.IntSort(), self.ety.sort()))
-        return SList(ln, arr, self.ety)
+        return SList(SV(ln, "int"), arr, self.ety)
 
 
 class TCList(Ty):
@@ -434,6 +445,21 @@ class TPath(Ty):
         raise Unsupported(f"not a Path: {v!r}")
 
 
+class TPList(Ty):
+    def fresh(self, ctx, name):
+        return PList(ctx.fresh(name, usort("ObjList")))
+
+
+class TDictOf(Ty):
+    """python dict with the given concrete keys and fresh values of one type."""
+
+    def __init__(self, keys, vty):
+        self.keys, self.vty = list(keys), vty
+
+    def fresh(self, ctx, name):
+        return {k: self.vty.fresh(ctx, f"{name}[{k}]") for k in self.keys}
+
+
 class TOpaque(Ty):
     def __init__(self, sortname):
         self.sortname = sortname
@@ -455,12 +481,12 @@ class TOpaque(Ty):
 # helpers
 # --------------------------------------------------------------------------------------
 def is_sym(v) -> bool:
-    return isinstance(v, (SV, BStr, SEnum, SOpt, SDate, SList, SMap, Opaque))
+    return isinstance(v, (SV, BStr, SEnum, SOpt, SDate, SList, SMap, Opaque, PList))
 
 
 def is_concrete(v) -> bool:
     """Deeply concrete python value (safe to hand to native code)."""
-    if isinstance(v, (SV, SEnum, SOpt, SDate, SList, SMap, Rec, Opaque)):
+    if isinstance(v, (SV, SEnum, SOpt, SDate, SList, SMap, Rec, Opaque, PList)):
         return False
     if isinstance(v, BStr):
         return False
@@ -590,6 +616,8 @@ def concretize(v, m):
         return {"__smap__": str(ev(v.has))[:300], "val": str(ev(v.val))[:300]}
     if isinstance(v, Rec):
         return {k: concretize(x, m) for k, x in v.fields.items()}
+    if isinstance(v, PList):
+        return {"__plist_tail__": [concretize(x, m) for x in v.tail]}
     if isinstance(v, Opaque):
         return str(ev(v.t))
     if isinstance(v, list):
@@ -644,6 +672,10 @@ def truth_term(ctx: Ctx, v):
         return z3.And(z3.Not(v.isnone), inner)
     if isinstance(v, (SEnum, SDate, Rec, Opaque)):
         return True
+    if isinstance(v, PList):
+        if v.tail:
+            return True
+        raise Unsupported("truthiness of an object list with unknown prefix")
     if isinstance(v, SMap):
         raise Unsupported("truthiness of a symbolic map")
     return bool(v)
@@ -708,7 +740,20 @@ def eq_term(ctx: Ctx, a, b):
         if all(isinstance(p, bool) for p in parts):
             return all(parts)
         return z3.And(*[z3.BoolVal(p) if isinstance(p, bool) else p for p in parts])
+    if isinstance(a, PList) or isinstance(b, PList):
+        if not (isinstance(a, PList) and isinstance(b, PList)):
+            return False if not (isinstance(a, list) or isinstance(b, list)) else _plist_vs_list(ctx, a, b)
+        if (a.base is None) != (b.base is None) or (a.base is not None and not a.base.eq(b.base)):
+            raise Unsupported("comparison of object lists with different unknown prefixes")
+        if len(a.tail) != len(b.tail):
+            return False
+        parts = [(x is y) if isinstance(x, Rec) and isinstance(y, Rec) else eq_term(ctx, x, y) for x, y in zip(a.tail, b.tail)]
+        if all(isinstance(p, bool) for p in parts):
+            return all(parts)
+        return z3.And(*[z3.BoolVal(p) if isinstance(p, bool) else p for p in parts])
     if isinstance(a, SList) and isinstance(b, SList):
+        if a.arr.eq(b.arr) and z3.is_true(z3.simplify(zint(a.length) == zint(b.length))):
+            return True
         i = z3.Int(ctx.fresh_name("eqi"))
         return z3.And(
             zint(a.length) == zint(b.length),
@@ -759,6 +804,13 @@ def eq_term(ctx: Ctx, a, b):
             return all(parts)
         return z3.And(*[z3.BoolVal(p) if isinstance(p, bool) else p for p in parts])
     raise Unsupported(f"equality of {type(a).__name__} and {type(b).__name__}")
+
+
+def _plist_vs_list(ctx, a, b):
+    p, l = (a, b) if isinstance(a, PList) else (b, a)
+    if p.base is not None:
+        raise Unsupported("object list with unknown prefix compared with a literal list")
+    return eq_term(ctx, p.tail, l)
 
 
 def _str_eq(a, b):
@@ -888,6 +940,16 @@ def binop(ctx: Ctx, op: str, a, b):
             return a + b
         if isinstance(a, (SList, list)) and isinstance(b, (SList, list)):
             return slist_concat(ctx, a, b)
+    if op == "BitOr" and (isinstance(a, SMap) or isinstance(b, SMap)) and isinstance(a, (SMap, dict)) and isinstance(b, (SMap, dict)):
+        # dict union, right operand wins
+        if isinstance(a, dict):
+            a = dict_to_smap(ctx, a, b.kty, b.vty)
+        if isinstance(b, dict):
+            b = dict_to_smap(ctx, b, a.kty, a.vty)
+        k = z3.Const(ctx.fresh_name("uk"), a.kty.sort())
+        has = z3.Lambda([k], z3.Or(z3.Select(a.has, k), z3.Select(b.has, k)))
+        val = z3.Lambda([k], z3.If(z3.Select(b.has, k), z3.Select(b.val, k), z3.Select(a.val, k)))
+        return SMap(has, val, a.kty, a.vty)
     if op == "BitOr" and isinstance(a, dict) and isinstance(b, dict):
         if is_concrete(list(a.keys())) and is_concrete(list(b.keys())):
             r = dict(a)
